@@ -74,17 +74,31 @@ pub fn run_find_bin_os(cwd: &Path, args: &[std::ffi::OsString], stdin: Option<&[
     let mut c = Command::new(bin_dir().join("find"));
     c.args(args).current_dir(cwd);
     for (k, v) in env {
+        if k == "VH_RLIMIT_STACK" {
+            // not an environment variable: the stack limit (bytes) the child is started with
+            use std::os::unix::process::CommandExt;
+            let lim: u64 = v.parse().unwrap_or(8 << 20);
+            unsafe {
+                c.pre_exec(move || {
+                    let r = libc::rlimit { rlim_cur: lim, rlim_max: lim };
+                    libc::setrlimit(libc::RLIMIT_STACK, &r);
+                    Ok(())
+                });
+            }
+            continue;
+        }
         c.env(k, v);
     }
-    let inp = cwd.join(".stdin.bin");
+    let inp = cwd.parent().unwrap_or(cwd).join(".stdin.bin");
     if let Some(s) = stdin {
         std::fs::write(&inp, s).unwrap();
         c.stdin(Stdio::from(std::fs::File::open(&inp).unwrap()));
     } else {
         c.stdin(Stdio::null());
     }
-    let outp = cwd.join(".stdout.bin");
-    let errp = cwd.join(".stderr.bin");
+    // kept outside the working directory: the files of one run must not show up in its walk
+    let outp = cwd.parent().unwrap_or(cwd).join(".stdout.bin");
+    let errp = cwd.parent().unwrap_or(cwd).join(".stderr.bin");
     c.stdout(Stdio::from(std::fs::File::create(&outp).unwrap()));
     c.stderr(Stdio::from(std::fs::File::create(&errp).unwrap()));
     let mut child = c.spawn().expect("spawn find");
